@@ -499,6 +499,11 @@ type violation struct {
 	res   *core.Result
 	build string
 	crash string
+	// where the run sat in its worker process: that process had executed the runs with indices
+	// from, from+stride, ... before it (a library that keeps state between calls - a cache, a
+	// table of strikes, a pool - makes a run depend on them)
+	from, stride uint64
+	gomax        int
 }
 
 func (d *driver) check() int {
@@ -596,7 +601,7 @@ func (d *driver) check() int {
 					case "violation":
 						res := &core.Result{}
 						json.Unmarshal(r["result"], res)
-						viols = append(viols, violation{res: res, build: build})
+						viols = append(viols, violation{res: res, build: build, from: from, stride: stride, gomax: 1 + i%2})
 					case "error":
 						harnessErr = append(harnessErr, string(r["msg"]))
 					}
@@ -735,6 +740,28 @@ func (d *driver) check() int {
 			fmt.Printf("VIOLATION property=%s replay=%s\n", d.prop, path)
 			fmt.Printf("  oracle %s (%s), %d run(s): %s\n", v.res.Oracle, v.res.Sig, len(g), firstLine(v.res.Msg))
 			break
+		}
+		if !reported && g[0].res.Oracle != "PANIC" && g[0].res.Oracle != "HANG" {
+			// Not one of them fails on its own. Does it fail in the company it had? Replay the runs its worker
+			// process had executed before it, in one fresh process, then the run itself: a verdict that depends
+			// on what the library remembered from earlier calls is as deterministic as any other.
+			for i, v := range g {
+				if i >= 2 || v.stride == 0 {
+					break
+				}
+				path, confirmed, herr := d.reportWithHistory(v)
+				if herr != nil {
+					return d.fatal("%v", herr)
+				}
+				if confirmed {
+					nviol += len(g)
+					exit = 1
+					reported = true
+					fmt.Printf("VIOLATION property=%s replay=%s\n", d.prop, path)
+					fmt.Printf("  oracle %s (%s), %d run(s), only after earlier runs in the same process: %s\n", v.res.Oracle, v.res.Sig, len(g), firstLine(v.res.Msg))
+					break
+				}
+			}
 		}
 		if reported {
 			continue
@@ -1044,6 +1071,133 @@ type replayFile struct {
 	// scheduling decisions instead of drawing them from the run seed.
 	Schedule     *kernel.Schedule `json:"schedule,omitempty"`
 	ScheduleNote string           `json:"schedule_note,omitempty"`
+	// History, when present, is what has to happen first in the same process: these scenarios are run, in
+	// this order, before Scenario - the violation needs what the library kept from them.
+	History     []json.RawMessage `json:"history,omitempty"`
+	HistoryNote string            `json:"history_note,omitempty"`
+	GOMAXPROCS  int               `json:"gomaxprocs,omitempty"`
+}
+
+// runHistory runs the scenarios of hist and then raw in one fresh worker process and returns the result of raw.
+func (d *driver) runHistory(build string, gomax int, hist []json.RawMessage, raw json.RawMessage) (res *core.Result, crash string, err error) {
+	if gomax == 0 {
+		gomax = 2
+	}
+	w, err := d.spawn(800+int(time.Now().UnixNano()%90), build, gomax)
+	if err != nil {
+		return nil, "", err
+	}
+	for _, h := range hist {
+		w.send(map[string]any{"op": "run", "prop": d.prop, "scenario": h, "verbose": false})
+	}
+	w.send(map[string]any{"op": "run", "prop": d.prop, "scenario": raw, "verbose": true})
+	recs, crashed, hung := w.finish(180 * time.Second)
+	n := 0
+	for _, r := range recs {
+		if kindOf(r) == "result" {
+			n++
+			if n == len(hist)+1 {
+				res = &core.Result{}
+				json.Unmarshal(r["result"], res)
+			}
+		}
+	}
+	if hung {
+		return nil, "", fmt.Errorf("worker hung replaying a history of %d scenarios", len(hist))
+	}
+	if crashed || res == nil {
+		return nil, panicText(w.stderr.String()), nil
+	}
+	return res, "", nil
+}
+
+// reportWithHistory confirms a violation that does not occur when its scenario is run alone: with the runs
+// that preceded it in its worker process. The history is then cut down - first to the shortest suffix that
+// still does it, then by dropping blocks - and written into the replay file.
+func (d *driver) reportWithHistory(v violation) (path string, confirmed bool, err error) {
+	raw := v.res.Scenario
+	if len(raw) == 0 {
+		raw, _ = json.Marshal(d.p.Gen(v.res.Seed, d.tier))
+	}
+	// the indices the worker had been through
+	var hist []json.RawMessage
+	found := false
+	for idx, n := v.from, 0; n < 200000; idx, n = idx+v.stride, n+1 {
+		seed := core.Mix(d.seed, idx)
+		if seed == v.res.Seed {
+			found = true
+			break
+		}
+		b, _ := json.Marshal(d.p.Gen(seed, d.tier))
+		hist = append(hist, b)
+	}
+	if !found || len(hist) == 0 {
+		return "", false, nil
+	}
+	same := func(r *core.Result) bool {
+		return r != nil && r.Verdict == core.Violation && r.Oracle == v.res.Oracle && normSig(r.Sig) == normSig(v.res.Sig)
+	}
+	deadline := time.Now().Add(150 * time.Second)
+	try := func(h []json.RawMessage) *core.Result {
+		if time.Now().After(deadline) {
+			return nil
+		}
+		r, _, e := d.runHistory(v.build, v.gomax, h, raw)
+		if e != nil || !same(r) {
+			return nil
+		}
+		return r
+	}
+	// the shortest suffix of the history that does it (doubling), at most the whole
+	var best []json.RawMessage
+	var bestRes *core.Result
+	for k := 1; ; k *= 2 {
+		if k > len(hist) {
+			k = len(hist)
+		}
+		if r := try(hist[len(hist)-k:]); r != nil {
+			best, bestRes = hist[len(hist)-k:], r
+			break
+		}
+		if k == len(hist) {
+			return "", false, nil
+		}
+	}
+	// it must do so every time
+	if r := try(best); r == nil {
+		return "", false, nil
+	}
+	total := len(best)
+	// drop blocks while the violation stays (halves, quarters, ... single scenarios)
+	for block := (len(best) + 1) / 2; block >= 1 && len(best) > 0; {
+		cut := false
+		for at := 0; at+block <= len(best); at += block {
+			cand := append(append([]json.RawMessage(nil), best[:at]...), best[at+block:]...)
+			if r := try(cand); r != nil {
+				best, bestRes, cut = cand, r, true
+				break
+			}
+		}
+		if !cut {
+			if block == 1 {
+				break
+			}
+			block = (block + 1) / 2
+		}
+		if time.Now().After(deadline) {
+			break
+		}
+	}
+	rf := replayFile{Property: d.prop, Build: v.build, Oracle: v.res.Oracle, Sig: v.res.Sig, Seed: v.res.Seed, Scenario: raw, History: best, GOMAXPROCS: v.gomax,
+		HistoryNote: fmt.Sprintf("the scenario alone does not fail; it fails after these %d scenario(s) have been run in the same process (cut down from the %d - of %d - that preceded it in its worker): the library keeps something from one call to the next", len(best), total, len(hist))}
+	rf.Message, rf.Digest, rf.Log = bestRes.Msg, bestRes.Digest, bestRes.Log
+	dir := filepath.Join(d.outdir(), "replays", d.prop)
+	os.MkdirAll(dir, 0o755)
+	path = filepath.Join(dir, fmt.Sprintf("%s-%s-%d.json", v.res.Oracle, sanitize(v.res.Sig), v.res.Seed))
+	rf.How = fmt.Sprintf("cd %s && ./check %s --replay %s", d.root, d.prop, path)
+	b, _ := json.MarshalIndent(rf, "", " ")
+	os.WriteFile(path, append(b, '\n'), 0o644)
+	return path, true, nil
 }
 
 // report confirms a violation in a fresh process, minimises its scenario and
@@ -1272,7 +1426,14 @@ func (d *driver) replayFile(path string) int {
 	if err := d.build(); err != nil {
 		return d.fatal("%v", err)
 	}
-	res, crash, err := d.runSched(rf.Build, rf.Scenario, true, rf.Schedule)
+	var res *core.Result
+	var crash string
+	if len(rf.History) > 0 {
+		fmt.Printf("replaying %d earlier scenario(s) in the same process first\n", len(rf.History))
+		res, crash, err = d.runHistory(rf.Build, rf.GOMAXPROCS, rf.History, rf.Scenario)
+	} else {
+		res, crash, err = d.runSched(rf.Build, rf.Scenario, true, rf.Schedule)
+	}
 	if err != nil {
 		return d.fatal("%v", err)
 	}
